@@ -47,9 +47,9 @@ func NewEffects(p *Prog, asmWrite map[string]map[int]bool) *Effects {
 }
 
 type effState struct {
-	uf    map[ssa.Value]ssa.Value
+	uf        map[ssa.Value]ssa.Value
 	tupleRoot map[ssa.Value][]ssa.Value
-	dirty bool
+	dirty     bool
 }
 
 func (s *effState) find(v ssa.Value) ssa.Value {
